@@ -256,8 +256,8 @@ func (o *Observer) CheckAll(ctx string) {
 			}
 		}
 	}
-	// ---- C11: fork choice and indexes
-	if o.Or.C11 {
+	// ---- C11 (and C12's "connected as if in order": the best chain must follow from the set of connected blocks alone)
+	if o.Or.C11 || o.Or.C12 {
 		o.checkForkChoice(ctx, bst)
 		if r.Failed() {
 			return
